@@ -41,6 +41,16 @@ theorem config_keys :
     cli_ode2c_config = ["config_data:verbose", "config_data:delta", "config_data:stiff_states", "config_data:scheme",
       "config_data:c", "c_config:to", "c_config:format"] := by decide +kernel
 
+/-- **every scheme receives exactly the options its function accepts, unchanged**: for each member
+of `Scheme`, the keyword arguments `cli.utils.add_schemes` hands to `codegen.scheme` (observed by
+running that function with a recording stub on every run) are the `delta` / `stiff_states`
+parameters of the function `get_scheme` resolves the member to — so `--delta` reaches both
+Rush–Larsen schemes under every accepted name and `--stiff-states` reaches the hybrid scheme. -/
+theorem scheme_options_reach_schemes :
+    schemeKwargsPassed = schemeKwargsAccepted ∧
+    schemeKwargsValues.all (fun p => p.2 == "unchanged") = true ∧
+    schemeKwargsPassed.map (·.1) = schemeMembers.map (·.2) := by decide +kernel
+
 /-- effective value of an option: the configuration file overrides the command line -/
 def effective {β} (cli : β) (cfg : Option β) : β := cfg.getD cli
 
